@@ -54,6 +54,52 @@ def check_unsort_pairs(ctx, fi, rule='R-PERM/unsort-pair'):
                 return False
         return True
 
+    def derives_sorted(e, nid, p, depth):
+        """e is, position by position, computed from something gathered
+        with the index sorted by p (element-wise arithmetic, running
+        reductions and plain slices keep positions; any other gather does
+        not)"""
+        if depth > 6:
+            return False
+        if isinstance(e, ast.Subscript):
+            sl = e.slice
+            parts = sl.elts if isinstance(sl, ast.Tuple) else [sl]
+            first = parts[0] if parts else None
+            if isinstance(first, ast.Name) and (
+                    first.id == p or sorted_by(first.id, nid, p)):
+                return True
+            if parts and all(isinstance(x, ast.Slice) for x in parts):
+                return derives_sorted(e.value, nid, p, depth + 1)
+            return False
+        if isinstance(e, ast.Name):
+            ds = rd.reaching(e.id, nid)
+            vals = [d for d in ds if d.kind == 'assign'
+                    and getattr(d, 'value', None) is not None
+                    and not d.path]
+            return bool(vals) and len(vals) == len(ds) and all(
+                derives_sorted(d.value, d.node, p, depth + 1)
+                for d in vals)
+        if isinstance(e, ast.BinOp):
+            return derives_sorted(e.left, nid, p, depth + 1) \
+                or derives_sorted(e.right, nid, p, depth + 1)
+        if isinstance(e, ast.UnaryOp):
+            return derives_sorted(e.operand, nid, p, depth + 1)
+        if isinstance(e, ast.Call):
+            f = e.func
+            if isinstance(f, ast.Attribute) and not (
+                    isinstance(f.value, ast.Name)
+                    and f.value.id in ('np', 'numpy')) and not (
+                        isinstance(f.value, ast.Attribute)
+                        and isinstance(f.value.value, ast.Name)
+                        and f.value.value.id in ('np', 'numpy')):
+                # method of an array: x.astype(...), x.copy()
+                if f.attr in ('astype', 'copy', 'cumsum', 'round'):
+                    return derives_sorted(f.value, nid, p, depth + 1)
+                return False
+            return any(derives_sorted(a, nid, p, depth + 1)
+                       for a in e.args)
+        return False
+
     def gathered_sorted(x_name, nid, p):
         """every definition of x reaching nid reads with an index sorted
         by p; returns (ok, offending definition)"""
@@ -66,6 +112,10 @@ def check_unsort_pairs(ctx, fi, rule='R-PERM/unsort-pair'):
                 if isinstance(first, ast.Name) and sorted_by(
                         first.id, d.node, p):
                     ok = True
+            if not ok and d.kind == 'assign' and v is not None:
+                # computed position by position from something gathered
+                # with p itself: f(Y[p] * w), possibly through locals
+                ok = derives_sorted(v, d.node, p, 0)
             if not ok:
                 return False, d
         return True, None
@@ -113,7 +163,8 @@ def check_unsort_pairs(ctx, fi, rule='R-PERM/unsort-pair'):
                     st.value, ast.Subscript) and isinstance(
                         st.value.value, ast.Name):
                 vi = st.value.slice
-                v0 = vi.elts[0] if isinstance(vi, ast.Tuple) else vi
+                v0 = vi.elts[0] if isinstance(vi, ast.Tuple) and vi.elts \
+                    else vi
                 if getattr(v0, 'id', None) == p:
                     wrong_way.append((st, st.value.value.id))
         for (st, x) in wrong_way:
@@ -228,8 +279,7 @@ def check_sorted_results_unsorted(ctx, fi, rule='R-PERM/unsort-before-return'):
     return n
 
 
-_DESTROYERS = {'merge_index_list', 'sort', 'sorted', 'unique', 'set',
-               'min', 'max', 'amin', 'amax'}
+_DESTROYERS = {'merge_index_list', 'sort', 'sorted', 'unique', 'set'}
 _WRAPPERS = {'array', 'asarray', 'deepcopy', 'copy', 'list', 'tuple'}
 
 
